@@ -114,7 +114,8 @@ impl Finder {
         ensures match r { Some(i) => first_marker(hay@, i as int), None => !has_marker(hay@) }
     { unimplemented!() }
 }
-pub enum ChannelMsg { Data { data: CryptoVec }, Eof, Other }
+// (russh::ChannelMsg has more variants; the ones a pump loop plausibly names are listed, `Other` stands for the rest)
+pub enum ChannelMsg { Data { data: CryptoVec }, Eof, Close, Success, Failure, WindowAdjusted { new_size: u32 }, Other }
 // russh::Channel: `budget` = number of channel messages the peer/session will still deliver (ghost, arbitrary);
 // wait() == None  <=>  the channel is closed (tokio mpsc recv on a closed channel: None now and forever).
 pub struct Channel { pub received: Ghost<Seq<u8>>, pub budget: Ghost<nat>, pub closed: Ghost<bool>, pub eof_seen: Ghost<bool> }
